@@ -7,7 +7,7 @@ Open Scope N_scope.
 Definition agrees (P : params) (t : list line) : Prop :=
   match interp_spec_pre t with
   | Unspec => True
-  | r => interp_impl_pre P t = r
+  | r => norm_pre (interp_impl_pre P t) = r
   end.
 
 Lemma scope_agrees_any : forall P t, params_ok P -> tree_plain t = true -> agrees P t.
@@ -100,7 +100,7 @@ Qed.
 Lemma reference_rule : forall P t po, params_ok P -> tree_plain t = true ->
   interp_spec_pre t = Ok po ->
   exists st, spec_run t spec_init = Ok st /\
-             interp_impl_pre P t = Ok po /\
+             norm_pre (interp_impl_pre P t) = Ok po /\
              po_ref po = match s_lastref st with
                          | Some c => RefCode c
                          | None => RefFirst (first_raw (s_ent st))
@@ -149,12 +149,35 @@ Proof.
   rewrite (H E target); auto. eapply find_exact_in; eauto.
 Qed.
 
+Definition norm_fin (r : fin) : fin :=
+  match r with
+  | FOk o => FOk {| o_frags := map norm_frag (o_frags o); o_entries := o_entries o;
+                    o_resolved := o_resolved o; o_reference := o_reference o |}
+  | x => x
+  end.
+
+Lemma finish_norm : forall rs po, finish rs (Ok (norm_po po)) = norm_fin (finish rs (Ok po)).
+Proof.
+  intros. unfold finish, norm_po; simpl.
+  destruct (resolve_all rs (po_entries po)); auto.
+  destruct (po_ref po); auto.
+  destruct (find_field code (po_entries po)) as [E|]; auto.
+  destruct (e_kind E); auto.
+  destruct (rs (e_name E) target) as [[x|]|]; auto.
+  destruct (find_exact x (po_entries po)) as [X|]; auto.
+  destruct (is_raw X); auto.
+Qed.
+
 Theorem fin_agrees : forall t po, tree_plain t = true ->
   interp_spec_pre t = Ok po -> uniq (po_entries po) ->
-  interp_impl code_params t = interp_spec t.
+  norm_fin (interp_impl code_params t) = interp_spec t.
 Proof.
   intros t po Ht Hs Hu. pose proof (scope_agrees_code t Ht) as A. unfold agrees in A. rewrite Hs in A.
-  unfold interp_impl, interp_spec. rewrite A, Hs.
+  unfold interp_impl, interp_spec. rewrite Hs.
+  destruct (interp_impl_pre code_params t) as [pi| |]; simpl in A; try discriminate.
+  inversion A as [A']. rewrite <- finish_norm. rewrite A'.
+  assert (Ee : po_entries pi = po_entries po) by (rewrite <- A'; reflexivity).
+  rewrite Ee.
   apply finish_ext. intros e tg Hin K. rewrite alias_bounded_code.
   apply resolve_impl_is_alias_spec; auto.
 Qed.
